@@ -198,8 +198,14 @@ func (b *Broker) message(ctx context.Context) map[string][]Message {
 			defer cancel()
 			select {
 			case <-ctx.Done():
-				go b.doHeartBeat(context.Background(), id)
-				return map[string][]Message{}
+				// withdraw the parked responder, unless a publisher has just taken
+				// it: then its batch is on the way and must still be returned
+				if b.responders.RemoveCb(id, func(_ string, v interface{}, exists bool) bool {
+					return exists && v == interface{}(responder)
+				}) {
+					go b.doHeartBeat(context.Background(), id)
+					return map[string][]Message{}
+				}
 			case result := <-responder:
 				return result
 			}
